@@ -89,6 +89,10 @@ def gen_source(rng):
     return spec
 
 
+class CentreModified(Exception):
+    pass
+
+
 class Subset(Profile):
     name = "subset"
     prop = "C09"
@@ -120,6 +124,7 @@ class Subset(Profile):
             op["r"] = rng.choice([3.0, 10.0, 25.0, 60.0, 180.0, 200.0])
             op["k"] = rng.choice([1, 2, 3, 5, 8, "n", "n"])
             op["cart"] = rng.random() < 0.3
+            op["center_nd"] = rng.random() < 0.4  # the caller keeps its centre in a float64 ndarray and reuses it
         else:
             op["lat"] = round(rng.uniform(-80.0, 80.0), 3)
             op["lat_node"] = rng.randrange(10**6) if rng.random() < 0.4 else None  # bit-equal to a node's latitude
@@ -272,7 +277,10 @@ class Subset(Profile):
             W.cov["par"][k] = W.cov["par"].get(k, 0) + 1
             W.fire("par_schedule")
         # ---- expected selection ----
-        must, may, order, call = self.expectation(W, op)
+        try:
+            must, may, order, call = self.expectation(W, op)
+        except CentreModified as e:
+            return ("centre-modified",), [V(f"{sig}/caller-centre-modified", i, str(e))]
         # ---- data ----
         da = None
         if op.get("api") == "uxda":
@@ -430,6 +438,17 @@ class Subset(Profile):
             cart = bool(op.get("cart")) and float((spec.get("dialect") or {}).get("xyz_scale", 1.0)) == 1.0 and spec.get("kind") != "file"
             op["cart"] = cart
             center = tuple(float(x) for x in cv) if cart else tuple(c)
+            if op.get("center_nd"):
+                # one array object for a warm-up call and for the judged call; it must come back unchanged
+                center = np.array(center, dtype=np.float64)
+                op["_center_keep"] = center.copy()
+                try:
+                    g.subset.nearest_neighbor(center, k=1, element=el)
+                except Exception:
+                    pass
+                if not np.array_equal(center, op["_center_keep"]):
+                    raise CentreModified(f"a subset call changed the caller's centre array from {op['_center_keep'].tolist()} to {center.tolist()}")
+                op["_center_keep"] = op["_center_keep"].tolist()
             if how == "bcircle":
                 r = op["r"]
                 if cart:
